@@ -470,11 +470,11 @@ class TradingEnv(gymnasium.Env):
             the method process_<EventName>) will update their values
             accordingly.
         """
-        AbstractContract.now = event.time
-        self._now = event.time
         if self._is_new_date(event.time):
             # 'event' is the first event of the day. Notify that it's a new date
             self.notify(EventNewDate(self._last_event.time, self.broker))
+        AbstractContract.now = event.time
+        self._now = event.time
         event.notify(self._observers)
         self._last_event = event
 
